@@ -519,7 +519,7 @@ package hotline
 //@ func (s *Server) handleNewConnection(ctx context.Context, rwc io.ReadWriteCloser, remoteAddr string) (err error)
 //@   before call (*hotline.ClientConn).Authenticate assert arg1 == callres("(*hotline.Field).DecodeObfuscatedString") || (callres("(*hotline.Field).DecodeObfuscatedString") == "" && arg1 == "guest")
 //@   before call (hotline.ClientManager).Add assert callres("(*hotline.ClientConn).Authenticate")
-//@   before call (*hotline.ClientConn).Authenticate assert callarg("(*hotline.Transaction).GetField#1", 1)[0] == 0 && callarg("(*hotline.Transaction).GetField#1", 1)[1] == 106 && same(arg2, encodedPassword)
+//@   before call (*hotline.ClientConn).Authenticate assert called_with("(*hotline.Transaction).GetField", 1, 0, 106) && same(arg2, encodedPassword)
 
 // C02: the control connection is tokenised by ONE scanner from the login on.  A scanner reads ahead:
 // bytes that arrived together with the login transaction sit in its buffer, so a second scanner
